@@ -126,6 +126,15 @@ func (b *builder) typeStr(t types.Type) string {
 		if p.Name() == b.pkg {
 			return ""
 		}
+		// the literal names a type of another package: the injected file must import it
+		// (the template already imports a few standard packages under their own names)
+		switch p.Path() {
+		case "encoding/json", "fmt", "math", "os", "reflect", "runtime":
+		default:
+			if b.imports != nil {
+				b.imports[p.Path()] = true
+			}
+		}
 		return p.Name()
 	})
 }
